@@ -100,6 +100,12 @@ def main(argv=None):
 
   if a.replay:
     with open(a.replay) as f: rp = json.load(f)
+    if rp["harness"].startswith("crosshair:") and hasattr(mod, "replay_extra"):
+      bad = mod.replay_extra(rp)
+      print("replay %s: %s" % (a.replay, "reproduced" if bad else "did not reproduce"))
+      if bad:
+        print("VIOLATION property=%s replay=%s" % (a.pid, a.replay)); return 1
+      return 0
     harness = getattr(mod, rp["harness"])
     from fractions import Fraction
     model = {}
@@ -132,10 +138,13 @@ def main(argv=None):
       for r in pool.imap_unordered(_run_task, tasks, chunksize=1):
         results.append(r)
   results.sort(key=lambda r: (r["harness"], json.dumps(r["cfg"], sort_keys=True)))
-  return report(a, mod, results, time.time() - t0, seed)
+  extra = None
+  if hasattr(mod, "extra") and not a.only:
+    extra = mod.extra(a.tier, REPO)
+  return report(a, mod, results, time.time() - t0, seed, extra)
 
 
-def report(a, mod, results, wall, seed):
+def report(a, mod, results, wall, seed, extra=None):
   import z3
   from symrun import core
   pid = a.pid
@@ -162,6 +171,9 @@ def report(a, mod, results, wall, seed):
     for e in r["errors"]:
       errors.append(dict(e, harness=r["harness"], cfg=e.get("cfg", r["cfg"])))
 
+  if extra:
+    violations.extend(extra.get("violations", []))
+    for i in extra.get("inconclusive", []): inconcl.append(dict(i, harness="extra", cfg={}))
   known = load_known()
   new_v, known_v = [], []
   seen = set()
@@ -223,6 +235,7 @@ def report(a, mod, results, wall, seed):
                      "transitions = solver-decided branch decisions + proof obligations; every obligation is "
                      "the query pc AND NOT claim sent to a fresh z3 solver (unsat = holds for all values on the path).",
   }
+  if extra: cov.update(extra.get("coverage", {}))
   ev = {"property_id": pid, "tier": tier, "seed": seed, "level": "model_checking",
         "coverage": cov, "assumptions": meta.get("assumptions", []),
         "wall_s": round(wall, 2), "violations": len(new_v)}
